@@ -1,6 +1,7 @@
 package main
 
 import (
+	"sort"
 	"os"
 	"fmt"
 	"go/token"
@@ -844,8 +845,58 @@ func (c *FnCtx) execReturn(x *ssa.Return, st *State, reach Term) {
 		c.curPos = x.Pos()
 		c.oblige("check", fmt.Sprintf("%d@ret%d", i+1, c.retN), reach, tv.t, cl.Text)
 	}
+	c.checkEffects(st, reach, results)
 	// frame: heaps not mentioned in modifies are unchanged for pre-existing objects
 	c.checkFrame(st, reach, env)
+}
+
+// checkEffects: the ghost summary callers rely on is faithful to the body. A ghost the body changes
+// must be declared: by `havoc` (then only the ensures clauses describe it), or by an `effect` whose
+// expression - over the entry ghost state, the parameters and the results - equals the final value.
+// An effect on a ghost the body never touches is the definition of that ghost event.
+func (c *FnCtx) checkEffects(st *State, reach Term, results []TV) {
+	if c.spec.Trusted || c.fn == nil {
+		return
+	}
+	topLevel := c.spec.NoFrame && len(c.spec.Effects)+len(c.spec.Havocs) == 0
+	hav := map[string]bool{}
+	for _, h := range c.spec.Havocs {
+		hav["GH_"+h[1:]] = true
+	}
+	eff := map[string]Clause{}
+	for _, ef := range c.spec.Effects {
+		eff["GH_"+ef.Name[1:]] = ef
+	}
+	var keys []string
+	for k := range st.heaps {
+		if strings.HasPrefix(k, "GH_") {
+			keys = append(keys, k)
+		}
+	}
+	sort.Strings(keys)
+	for _, k := range keys {
+		v := st.heaps[k]
+		ev := c.heap(c.entry, k, SBool)
+		if v.S == ev.S || hav[k] {
+			continue
+		}
+		name := "$" + k[3:]
+		if ef, ok := eff[k]; ok {
+			env := c.envFor(c.entry, c.entry)
+			c.bindResults(env, c.fn.Signature, c.spec, results)
+			tv, err := c.evalSpec(ef.E, env)
+			if err != nil {
+				c.abort("effect %s: %v", name, err)
+				return
+			}
+			c.oblige("effect", fmt.Sprintf("%s@ret%d", name, c.retN), reach, eq(v, tv.t), "declared effect is what the body does: "+name+" := "+ef.Text)
+			continue
+		}
+		if topLevel {
+			continue
+		}
+		c.oblige("effect", fmt.Sprintf("%s@ret%d", name, c.retN), reach, eq(v, ev), "ghost "+name+" is changed by the body but not declared (effect / havoc)")
+	}
 }
 
 func (c *FnCtx) bindResults(env *Env, sig *types.Signature, spec *FuncSpec, results []TV) {
